@@ -16,7 +16,7 @@ That each algorithm returns the minimum over all paths, and that the five routin
 import ast
 
 from ..core import spelling
-from ..core.astutil import norm, cn, where_unpack, ParentMap, same_up_to_reordering
+from ..core.astutil import norm, cn, where_unpack, through_nonempty_guards, ParentMap, same_up_to_reordering, loop_exits
 from ..core.cfg import CFG
 from ..core.loader import walk_no_nested
 from ..core.pattern import Matcher
@@ -152,11 +152,16 @@ def _dijkstra_core(rep, f, m, fn_node, G, tag, with_hops):
     relax = None
     if vl:
         v = norm(vl[0].target)
-        names = {norm(s.targets[0]): s for s in vl[0].body if isinstance(s, ast.Assign) and isinstance(s.targets[0], (ast.Name, ast.Subscript))}
-        W = [s for s in vl[0].body if where_unpack(s) is not None and m.match(where_unpack(s)[1], 'G1[%s, :]' % v)]
+        outs = loop_exits(vl[0])
+        rep.ob('K.dijkstra-relaxes-from-every-settled-node', f, outs[0] if outs else vl[0].iter, not outs,
+               'all nodes settled together (equal lengths) are already permanent: leaving the relaxation loop early drops the connections of the remaining ones, '
+               'so nodes reachable only through them keep a longer length or inf' + tag, line=vl[0].lineno)
+        vbody = through_nonempty_guards(vl[0].body, 'W')
+        names = {norm(s.targets[0]): s for s in vbody if isinstance(s, ast.Assign) and isinstance(s.targets[0], (ast.Name, ast.Subscript))}
+        W = [s for s in vbody if where_unpack(s) is not None and m.match(where_unpack(s)[1], 'G1[%s, :]' % v)]
         td = names.get('td')
         oktd = td is not None and m.match(td.value, 'np.array([D[%s, W].flatten(), (D[%s, %s] + G1[%s, W]).flatten()])' % (u, u, v, v)) is not None
-        st = [s for s in vl[0].body if isinstance(s, ast.Assign) and norm(s.targets[0]) == 'D[%s, W]' % u]
+        st = [s for s in vbody if isinstance(s, ast.Assign) and norm(s.targets[0]) == 'D[%s, W]' % u]
         okmin = False
         if st:
             val = st[0].value
@@ -169,7 +174,7 @@ def _dijkstra_core(rep, f, m, fn_node, G, tag, with_hops):
         if with_hops:
             wi = names.get('wi')
             ind = names.get('ind')
-            hb = [s for s in vl[0].body if isinstance(s, ast.Assign) and m.match(s.targets[0], 'B[%s, ind]' % u)]
+            hb = [s for s in vbody if isinstance(s, ast.Assign) and m.match(s.targets[0], 'B[%s, ind]' % u)]
             okh = wi is not None and m.match(wi.value, 'np.argmin(td, axis=0)') is not None and ind is not None and \
                 m.match(ind.value, 'W[np.where(wi == 1)]') is not None and len(hb) == 1 and m.match(hb[0].value, 'B[%s, %s] + 1' % (u, v)) is not None
             rep.ob('K.hops-updated-on-strict-improvement', f, hb[0] if hb else 'B[u, ind] = B[u, v] + 1', okh,
@@ -443,6 +448,12 @@ def variants(root):
     B('hops updated on ties too', 'distance_wei', 'ind = W[np.where(wi == 1)]', 'ind = W', 'K.hops')
     B('start matrix not inf', 'distance_wei', '    D[np.logical_not(np.eye(n))] = np.inf\n', '', 'T.inf-off')
     B('only one minimal node settled', 'distance_wei', 'V, = np.where(D[u, :] == minD)', 'V = [int(np.argmin(np.where(S, D[u, :], np.inf)))]', 'K.dijkstra-next')
+    B('relaxation loop left at a node without unvisited neighbours', 'distance_wei', '                W, = np.where(G1[v, :])  # neighbors of shortest nodes\n',
+      '                W, = np.where(G1[v, :])  # neighbors of shortest nodes\n                if W.size == 0:\n                    break\n', 'K.dijkstra-relaxes')
+    N('node without unvisited neighbours skipped', 'distance_wei', '                W, = np.where(G1[v, :])  # neighbors of shortest nodes\n',
+      '                W, = np.where(G1[v, :])  # neighbors of shortest nodes\n                if W.size == 0:\n                    continue\n')
+    B('private search: relaxation loop left early', 'efficiency_wei', '                    W, = np.where(G1[v, :])  # neighbors of smallest nodes\n',
+      '                    W, = np.where(G1[v, :])  # neighbors of smallest nodes\n                    if not len(W):\n                        break\n', '', file=E)
     B('floyd non-strict', 'distance_wei_floyd', 'path = SPL > i2k_k2j', 'path = SPL >= i2k_k2j', 'K.floyd')
     B('floyd zero weights stay zero', 'distance_wei_floyd', '        SPL[SPL == 0] = np.inf\n', '', 'T.absent')
     B('floyd diagonal not reset', 'distance_wei_floyd', '    SPL[I] = 0\n', '', 'T.diagonal-of-all')
